@@ -616,13 +616,17 @@ func (maybeSelf someDef[T]) ToInt32() (int32, error) {
 		return 0, ErrConversionSizeOverflow
 	case float32:
 		val, err := maybeSelf.ToFloat32()
-		if val >= math.MinInt32 && val <= math.MaxInt32 {
+		// compare as float64: float32(math.MaxInt32) rounds up to 2^31
+		if float64(val) >= math.MinInt32 && float64(val) <= math.MaxInt32 {
 			return int32(math.Round(float64(val))), err
 		}
 		return 0, ErrConversionSizeOverflow
 	case float64:
 		val, err := maybeSelf.ToFloat64()
-		return int32(math.Round(val)), err
+		if val >= math.MinInt32 && val <= math.MaxInt32 {
+			return int32(math.Round(val)), err
+		}
+		return 0, ErrConversionSizeOverflow
 	}
 }
 
@@ -687,13 +691,15 @@ func (maybeSelf someDef[T]) ToInt64() (int64, error) {
 		return (ref).(int64), nil
 	case float32:
 		val, err := maybeSelf.ToFloat32()
-		if val >= math.MinInt64 && val <= math.MaxInt64 {
+		// math.MaxInt64 rounds up to 2^63 as a float, which is already out of range: compare with <
+		if val >= math.MinInt64 && val < math.MaxInt64 {
 			return int64(math.Round(float64(val))), err
 		}
 		return 0, ErrConversionSizeOverflow
 	case float64:
 		val, err := maybeSelf.ToFloat64()
-		if val >= math.MinInt64 && val <= math.MaxInt64 {
+		// math.MaxInt64 rounds up to 2^63 as a float, which is already out of range: compare with <
+		if val >= math.MinInt64 && val < math.MaxInt64 {
 			return int64(math.Round(val)), err
 		}
 		return 0, ErrConversionSizeOverflow
@@ -1061,13 +1067,17 @@ func (maybeSelf someDef[T]) ToUint32() (uint32, error) {
 		return 0, ErrConversionSizeOverflow
 	case float32:
 		val, err := maybeSelf.ToFloat32()
-		if val >= 0 && val <= math.MaxUint32 {
+		// compare as float64: float32(math.MaxUint32) rounds up to 2^32
+		if float64(val) >= 0 && float64(val) <= math.MaxUint32 {
 			return uint32(math.Round(float64(val))), err
 		}
 		return 0, ErrConversionSizeOverflow
 	case float64:
 		val, err := maybeSelf.ToFloat64()
-		return uint32(math.Round(val)), err
+		if val >= 0 && val <= math.MaxUint32 {
+			return uint32(math.Round(val)), err
+		}
+		return 0, ErrConversionSizeOverflow
 	}
 }
 
@@ -1142,13 +1152,15 @@ func (maybeSelf someDef[T]) ToUint64() (uint64, error) {
 		return 0, ErrConversionSizeOverflow
 	case float32:
 		val, err := maybeSelf.ToFloat32()
-		if val >= 0 && val <= math.MaxUint64 {
+		// math.MaxUint64 rounds up to 2^64 as a float, which is already out of range: compare with <
+		if val >= 0 && val < math.MaxUint64 {
 			return uint64(math.Round(float64(val))), err
 		}
 		return 0, ErrConversionSizeOverflow
 	case float64:
 		val, err := maybeSelf.ToFloat64()
-		if val >= 0 && val <= math.MaxUint64 {
+		// math.MaxUint64 rounds up to 2^64 as a float, which is already out of range: compare with <
+		if val >= 0 && val < math.MaxUint64 {
 			return uint64(math.Round(val)), err
 		}
 		return 0, ErrConversionSizeOverflow
@@ -1231,10 +1243,18 @@ func (maybeSelf someDef[T]) ToUintptr() (uintptr, error) {
 		return uintptr(0), ErrConversionSizeOverflow
 	case float32:
 		val, err := maybeSelf.ToFloat32()
-		return uintptr(math.Round(float64(val))), err
+		rounded := math.Round(float64(val))
+		if rounded >= 0 && rounded < float64(maxUintptr)+1 {
+			return uintptr(rounded), err
+		}
+		return uintptr(0), ErrConversionSizeOverflow
 	case float64:
 		val, err := maybeSelf.ToFloat64()
-		return uintptr(math.Round(val)), err
+		rounded := math.Round(val)
+		if rounded >= 0 && rounded < float64(maxUintptr)+1 {
+			return uintptr(rounded), err
+		}
+		return uintptr(0), ErrConversionSizeOverflow
 	}
 }
 
